@@ -18,12 +18,21 @@ structure WF2 (C : Cfg) : Prop where
   own_sw : ∀ l, l < C.lines.length → ∀ d ∈ (lineOf C l).discons, Sw.discon d ∈ (secOf C (lineOf C l).sec).switches
   all_sw : ∀ k, k < C.secs.length → ∀ d, Sw.discon d ∈ (secOf C k).switches →
     ∀ d' ∈ (lineOf C (C.disconLine.getD d 0)).discons, Sw.discon d' ∈ (secOf C k).switches
+  lines_nodup : ∀ n, n < C.nets.length → (netOf C n).lines.Nodup
+  children_mg : ∀ n, n < C.nets.length → ∀ m ∈ (netOf C n).children, isMg C m = true
+  cb_owned : ∀ c, c < C.cbLine.length → ∃ n, n < C.nets.length ∧ (netOf C n).cb = c
+
+theorem noDup_nodup : ∀ (l : List Nat), noDup l = true → l.Nodup
+  | [], _ => List.nodup_nil
+  | a :: as, h => by
+    simp only [noDup, Bool.and_eq_true, Bool.not_eq_true', List.contains_eq_mem, decide_eq_false_iff_not] at h
+    exact List.nodup_cons.mpr ⟨h.1, noDup_nodup as h.2⟩
 
 theorem WF2.of_wfB2 (C : Cfg) (h : wfB2 C = true) : WF2 C := by
   unfold wfB2 at h
   simp only [Bool.and_eq_true, List.all_eq_true, List.mem_range, decide_eq_true_eq, List.contains_iff_mem, beq_iff_eq] at h
-  obtain ⟨⟨⟨h1, h2⟩, h3⟩, h4⟩ := h
-  refine ⟨fun d hd => h1 d hd, fun c hc => h2 c hc, ?_, ?_, ?_⟩
+  obtain ⟨⟨⟨⟨⟨h1, h2⟩, h3⟩, h4⟩, h5⟩, h6⟩ := h
+  refine ⟨fun d hd => h1 d hd, fun c hc => h2 c hc, ?_, ?_, ?_, ?_, ?_, ?_⟩
   · intro l hl c hc
     have := (h3 l hl).1
     rw [hc] at this
@@ -34,6 +43,15 @@ theorem WF2.of_wfB2 (C : Cfg) (h : wfB2 C = true) : WF2 C := by
     have := h4 k hk _ hd
     simp only [List.all_eq_true, List.contains_iff_mem] at this
     exact this d' hd'
+  · intro n hn
+    exact noDup_nodup _ (h5 n hn).1
+  · intro n hn m hm
+    have := (h5 n hn).2 m hm
+    simpa [isMg, netOf] using this
+  · intro c hc
+    have := h6 c hc
+    simp only [List.any_eq_true, List.mem_range, beq_iff_eq] at this
+    exact this
 
 /-- switch positions agree with lines -/
 structure SA (C : Cfg) (s : St) : Prop where
